@@ -56,23 +56,31 @@ using namespace Parma_Polyhedra_Library;
 // mem::arm > 0 makes the arm-th allocation performed inside a C call throw std::bad_alloc.
 namespace mem {
 extern long live_c, arm, fired; extern bool in_c;
+extern const char* cur_name; extern uint64_t seq;     // C function being executed, allocation sequence number
+std::string survivors(uint64_t since);                 // tagged blocks allocated after `since' and still alive
 }
 #if C20_MAIN_PART
 namespace mem {
-long live_c = 0, arm = 0, fired = 0; bool in_c = false;
-struct Hdr { uint64_t magic; uint64_t tag; };
+long live_c = 0, arm = 0, fired = 0; bool in_c = false; const char* cur_name = ""; uint64_t seq = 0;
+struct Hdr { uint64_t magic; const char* name; uint64_t seq; uint64_t slot; };
 static const uint64_t MAGIC = 0xC20C20C20C20C20CULL;
+static const size_t NSLOT = 1 << 14; static Hdr* slots[NSLOT]; static size_t next_slot = 0;
 static inline void* get(size_t n, bool nothrow) {
   if (arm > 0 && in_c && --arm == 0) { ++fired; if (nothrow) return 0; throw std::bad_alloc(); }
   Hdr* p = (Hdr*) std::malloc(n + sizeof(Hdr));
   if (!p) { if (nothrow) return 0; throw std::bad_alloc(); }
-  p->magic = MAGIC; p->tag = in_c ? 1 : 0; if (in_c) ++live_c;
+  p->magic = MAGIC; p->name = in_c ? cur_name : 0; p->seq = ++seq; p->slot = NSLOT;
+  if (in_c) { ++live_c; for (size_t k = 0; k < 64; ++k) { size_t s = (next_slot + k) % NSLOT; if (!slots[s]) { slots[s] = p; p->slot = s; next_slot = s + 1; break; } } }
   return p + 1;
 }
 static inline void put(void* q) {
   if (!q) return; Hdr* p = (Hdr*) q - 1;
   if (p->magic != MAGIC) { std::free(q); return; }
-  if (p->tag) --live_c; p->magic = 0; std::free(p);
+  if (p->name) { --live_c; if (p->slot < NSLOT) slots[p->slot] = 0; } p->magic = 0; std::free(p);
+}
+std::string survivors(uint64_t since) {
+  std::map<std::string, int> m; for (size_t s = 0; s < NSLOT; ++s) if (slots[s] && slots[s]->seq > since) m[slots[s]->name]++;
+  std::string r; for (auto& kv : m) r += " " + kv.first + " x" + std::to_string(kv.second); return r;
 }
 }
 void* operator new(size_t n) { return mem::get(n, false); }
@@ -117,6 +125,7 @@ struct Env {
     c.tag(name);
     g_err.count = 0; g_err.code = 0; g_err.desc[0] = 0;
     int rc = 0; bool crossed = false; std::string what;
+    static std::set<std::string> interned; mem::cur_name = interned.insert(name).first->c_str();
     long fired0 = mem::fired; mem::arm = arm_next; arm_next = 0;
     mem::in_c = true;
     try { rc = f(); }
@@ -243,9 +252,10 @@ struct Basics {
     c.check("same.coefficient", rc == 0, "ppl_Coefficient_to_mpz_t failed"); return z;
   }
   // ---- generated data
+  bool small_only = false;   // MIP/PIP programs: no huge coefficients (running time)
   LEv gen_lev(size_t n, bool mismatch_ok = true) {
     LEv v; size_t m = n; if (mismatch_ok && t.chance(4)) m = n + 1;
-    v.a.resize(m); for (size_t i = 0; i < m; ++i) v.a[i] = e.gen_z(); v.b = e.gen_z(); return v;
+    v.a.resize(m); for (size_t i = 0; i < m; ++i) v.a[i] = e.gen_z(!small_only); v.b = e.gen_z(!small_only); return v;
   }
   static Linear_Expression lex(const LEv& v) { Linear_Expression x; x.set_space_dimension(v.a.size()); for (size_t i = 0; i < v.a.size(); ++i) if (v.a[i] != 0) add_mul_assign(x, Coefficient(v.a[i]), Variable(i)); x += Coefficient(v.b); return x; }
   // ---- linear expressions
@@ -452,11 +462,12 @@ struct Basics {
   C20_SAME_SYS(Grid_Generator_System, Grid_Generator, same_gg, "grid_generator_system")
 
   int gen_ct(bool strict_ok) { int k = t.weighted({35, 25, 20, strict_ok ? 9 : 2, strict_ok ? 9 : 2, 1}); static const int m[6] = { 3, 1, 2, 4, 0, 6 }; return m[k]; }
-  bool gen_con(PCon& p, size_t n, bool strict_ok, std::string* txt = 0) { LEv v = gen_lev(n); int ty = gen_ct(strict_ok); if (txt) *txt = v.str() + " " + CTN(ty) + " 0"; return mk_con(p, v, ty); }
+  bool gen_con(PCon& p, size_t n, bool strict_ok, std::string* txt = 0) { LEv v = gen_lev(n); if (no_false_cs && !v.a.empty()) { bool z = true; for (size_t i = 0; i < v.a.size(); ++i) if (v.a[i] != 0) z = false; if (z) v.a[0] = 1; } int ty = gen_ct(strict_ok); if (txt) *txt = v.str() + " " + CTN(ty) + " 0"; return mk_con(p, v, ty); }
 
+  bool no_false_cs = false;   // BD_Shape::get_limiting_shape (BD_Shape_templates.hh:3164) crashes on constraints without variables (base library)
   // builds a constraint system of up to maxrows constraints over n dimensions through the C builders
   void gen_cs(PCs& p, size_t n, int maxrows, bool strict_ok, std::string* txt = 0) {
-    int how = (int) t.range(0, 2); int m = (int) t.range(0, maxrows); std::string s = "{";
+    int how = (int) t.range(0, 2); int m = (int) t.range(0, maxrows); std::string s = "{"; if (no_false_cs && how == 1) how = 0;
     if (how == 1) { p.h.got(e.ccall("ppl_new_Constraint_System_zero_dim_empty", [&] { return ppl_new_Constraint_System_zero_dim_empty(p.h.out()); })); p.x = Constraint_System::zero_dim_empty(); s += "false; "; }
     else if (how == 2 && m > 0) { PCon k; std::string cs; if (gen_con(k, n, strict_ok, &cs)) { p.h.got(e.ccall("ppl_new_Constraint_System_from_Constraint", [&] { return ppl_new_Constraint_System_from_Constraint(p.h.out(), k.h.k()); })); p.x = Constraint_System(k.x); s += cs + "; "; k.h.free_(e); } --m; }
     if (!p.h.p) p.h.got(e.ccall("ppl_new_Constraint_System", [&] { return ppl_new_Constraint_System(p.h.out()); }));
@@ -577,6 +588,8 @@ typedef Octagonal_Shape<mpz_class> X_Oct;
 #define DOM_OT Polyhedron
 #define DOM_X C_Polyhedron
 #define DOM_NNC 0
+#define DOM_BOX 0
+#define DOM_BIGDIM 1
 #define DOM_LINPART 1
 #define DOM_RECYCLE_ARG , Recycle_Input()
 #define DOM_POLY 1
@@ -651,6 +664,8 @@ void c20_run_Grid(Env& e, Basics& b) { Prog_Grid p(e, b); p.run(); }
 #undef DOM_LIMITED
 // Rational_Box
 #define DOM_NAME RBox
+#undef DOM_BOX
+#define DOM_BOX 1
 #undef DOM_LINPART
 #define DOM_LINPART 1
 #undef DOM_RECYCLE_ARG
@@ -675,6 +690,10 @@ void c20_run_RBox(Env& e, Basics& b) { Prog_RBox p(e, b); p.run(); }
 #undef DOM_LIMITED
 // BD_Shape<mpq_class>
 #define DOM_NAME BDS
+#undef DOM_BOX
+#define DOM_BOX 0
+#undef DOM_BIGDIM
+#define DOM_BIGDIM 0
 #define DOM_CT BD_Shape_mpq_class
 #define DOM_OT BD_Shape_mpq_class
 #define DOM_X X_BDS
@@ -774,7 +793,7 @@ void c20_run_Prod(Env& e, Basics& b);
 // ------------------------------------------------------------------ MIP_Problem
 static void mip_program(Env& e, Basics& b) {
   vf::Ctx& c = e.c; vf::Tape& t = e.t; size_t n = (size_t) t.range(1, 3); std::string txt;
-  HMIP_Problem h; MIP_Problem x(n); c.log << "MIP problem, dimension " << n << "\n";
+  HMIP_Problem h; MIP_Problem x(n); c.log << "MIP problem, dimension " << n << "\n"; b.small_only = true;
   auto dump_same = [&](const char* where) { int rc; std::string a = e.via_file("ppl_MIP_Problem_ascii_dump", [&](FILE* f) { return ppl_MIP_Problem_ascii_dump(h.k(), f); }, &rc); std::ostringstream os; x.ascii_dump(os);
     c.check("same.state.mip", rc == 0 && a == os.str(), [&] { return std::string("MIP problem after ") + where + ": handle differs from the twin\n" + a + "--- C++:\n" + os.str(); }); };
   if (t.chance(50)) { PCs cs; b.gen_cs(cs, n, 4, false, &txt); LEv le = b.gen_lev(n); PLe l; b.mk_le(l, le); int mode = t.chance(50) ? PPL_OPTIMIZATION_MODE_MAXIMIZATION : PPL_OPTIMIZATION_MODE_MINIMIZATION;
@@ -874,7 +893,7 @@ struct PipCmp {
   }
 };
 static void pip_program(Env& e, Basics& b) {
-  vf::Ctx& c = e.c; vf::Tape& t = e.t; size_t n = (size_t) t.range(1, 3); std::string txt; HPIP_Problem h; PIP_Problem x(n); c.log << "PIP problem, dimension " << n << "\n";
+  vf::Ctx& c = e.c; vf::Tape& t = e.t; size_t n = (size_t) t.range(1, 3); std::string txt; HPIP_Problem h; PIP_Problem x(n); c.log << "PIP problem, dimension " << n << "\n"; b.small_only = true;
   std::vector<ppl_dimension_type> ps; for (size_t i = 0; i < n; ++i) if (t.chance(35)) ps.push_back(i); if (t.chance(4)) ps.push_back(n); Variables_Set xps; for (size_t k : ps) xps.insert(k);
   auto dump_same = [&](const char* where) { int rc; std::string a = e.via_file("ppl_PIP_Problem_ascii_dump", [&](FILE* f) { return ppl_PIP_Problem_ascii_dump(h.k(), f); }, &rc); std::ostringstream os; x.ascii_dump(os);
     c.check("same.state.pip", rc == 0 && a == os.str(), [&] { return std::string("PIP problem after ") + where + ": handle differs from the twin\n" + a + "--- C++:\n" + os.str(); }); };
@@ -1009,19 +1028,25 @@ static void run_case(vf::Ctx& c) {
   default: { int k = (int) c.t.range(1, 4); for (int i = 0; i < k; ++i) misc_program(e, b); if (e.err_paths) c.nt(); break; }
   }
   // Oracle (3): every handle created through ppl_new_* was released exactly once.
+  // Leaks are judged on cases without error returns only: on exception paths the base library itself
+  // leaks (Watchdog's constructor, Box(Polyhedron) on an internal length_error), which is not the C layer's doing.
   if (e.base_leak) g_skip_leak = true;
   c.check("own.balance", g_handles == h0, [&] { return std::to_string(g_handles - h0) + " handle(s) created by the case were not deleted"; });
 }
 void vf_case(vf::Ctx& c) {
-  long before = mem::live_c; g_skip_leak = false;
+  long before = mem::live_c; g_skip_leak = false; uint64_t seq0 = mem::seq;
   run_case(c);
   long delta = mem::live_c - before;
+  // the recording of internal assertions (common.hh) allocates inside the C call: such cases are not judged
+  if (!vf::fired_asserts().empty()) g_skip_leak = true;
+  if (delta > 0 && g_skip_leak) c.tag("live allocations grew in a case with fired assertions or a throwing Watchdog constructor (not judged)");
   if (delta > 0 && !g_skip_leak) {
-    // PPL caches temporaries: judge a leak only if the same case leaks again immediately
-    vf::Ctx c2(c.t.v); long b2 = mem::live_c; bool ok = true;
-    try { run_case(c2); } catch (...) { ok = false; }
-    long d2 = mem::live_c - b2;
-    if (ok) c.check("own.leak", d2 <= 0, [&] { return "allocations made inside C calls and never released: " + std::to_string(delta) + " block(s) in the first run, " + std::to_string(d2) + " again in an immediate second run of the same case"; });
+    // PPL caches temporaries (and the caches depend on the history): judge a leak only if the
+    // same case leaks again in each of five immediate re-runs
+    long d[5] = { 0, 0, 0, 0, 0 }; bool ok = true;
+    std::string who = mem::survivors(seq0);
+    for (int k = 0; k < 5 && ok; ++k) { vf::Ctx c2(c.t.v); long b2 = mem::live_c; try { run_case(c2); } catch (...) { ok = false; } d[k] = mem::live_c - b2; }
+    if (ok) c.check("own.leak", d[0] <= 0 || d[1] <= 0 || d[2] <= 0 || d[3] <= 0 || d[4] <= 0, [&] { return "allocations made inside C calls and never released: " + std::to_string(delta) + " block(s) in the first run, " + std::to_string(d[0]) + " and " + std::to_string(d[1]) + " (and 3 more times) again in five immediate re-runs of the same case; surviving blocks of the first run were allocated in:" + who; });
   }
 }
 VF_MAIN
@@ -1068,7 +1093,7 @@ struct C20_CAT(Prog_, DOM_NAME, , ) {
   template <class... A> static void fresh(X& dst, A&&... a) { X tmp(std::forward<A>(a)...); dst.m_swap(tmp); }
 #if DOM_PSET
   // powerset disjuncts are shared copy-on-write: a query on a copy would minimise the twin's own disjuncts
-  bool interesting(const X& x) { std::stringstream ss; x.ascii_dump(ss); X cp(x.space_dimension(), UNIVERSE); if (!cp.ascii_load(ss)) return false; return !cp.is_empty() && !cp.is_universe(); }
+  bool interesting(const X& x) { std::stringstream ss; x.ascii_dump(ss); X cp(x.space_dimension(), UNIVERSE); try { if (!cp.ascii_load(ss)) return false; return !cp.is_empty() && !cp.is_universe(); } catch (std::exception&) { return false; } }
 #else
   bool interesting(const X& x) { X cp(x); return !cp.is_empty() && !cp.is_universe(); }
 #endif
@@ -1100,7 +1125,7 @@ struct C20_CAT(Prog_, DOM_NAME, , ) {
     case 0: { PCs cs; b.gen_cs(cs, n, 4, nnc, &txt); c.log << "  new " << dn() << " from constraints " << txt << "\n";
       rc = e.both(NEWN(from_Constraint_System), "new_from_cs", [&] { return NEWF(from_Constraint_System)(o.h.out(), cs.h.k()); }, [&] { fresh(o.x, cs.x); return 0; }); o.h.got(rc);
       b.same_Constraint_System(cs.h.k(), cs.x, "const argument"); cs.h.free_(e); break; }
-    case 1: { int emp = t.chance(30); size_t d = n; if (t.chance(3)) d = (size_t) -2;   // beyond every maximum: length error
+    case 1: { int emp = t.chance(30); size_t d = n; if (DOM_BIGDIM && t.chance(3)) d = (size_t) -2;   // beyond every maximum: length error (only where the C++ constructor checks it)
       c.log << "  new " << dn() << " from space dimension " << d << (emp ? " empty" : " universe") << "\n";
       rc = e.both(NEWN(from_space_dimension), "new_from_dim", [&] { return NEWF(from_space_dimension)(o.h.out(), d, emp); }, [&] { fresh(o.x, d, emp ? EMPTY : UNIVERSE); return 0; }); o.h.got(rc); break; }
     case 2: { PCgs cs; b.gen_cgs(cs, n, 3, &txt); c.log << "  new " << dn() << " from congruences " << txt << "\n";
@@ -1228,6 +1253,7 @@ struct C20_CAT(Prog_, DOM_NAME, , ) {
       else { c.log << "generalized_affine_preimage_lhs_rhs " << le2.str() << " " << CTN(rs) << " " << le.str() << "\n"; e.both(OPN(generalized_affine_preimage_lhs_rhs), opid, [&] { return OPF(generalized_affine_preimage_lhs_rhs)(o.h, l2.h.k(), crs, l.h.k()); }, [&] { o.x.generalized_affine_preimage(l2.x, RS[rs], l.x); return 0; }); }
       b.same_le(l.h.k(), l.x, "const argument"); l.h.free_(e); l2.h.free_(e); k.free_(e); break; }
     case 6: { opid = "bounded_affine_image"; size_t v = gv(n); LEv lo = b.gen_lev(n), up = b.gen_lev(n); mpz_class d = t.pick(std::vector<long>{1, 1, -1, 2, 0}); bool pre = t.chance(40);
+      if (DOM_BOX) pre = false;   // Box::bounded_affine_preimage divides by zero (SIGFPE) when the variable occurs in a bound: base library
       PLe l, u; b.mk_le(l, lo); b.mk_le(u, up); HCoefficient k; b.mk_coef(k, d); c.log << (pre ? "bounded_affine_preimage (" : "bounded_affine_image (") << lo.str() << ")/" << zs(d) << " <= x" << v << " <= (" << up.str() << ")/" << zs(d) << "\n";
       if (pre) e.both(OPN(bounded_affine_preimage), opid, [&] { return OPF(bounded_affine_preimage)(o.h, v, l.h.k(), u.h.k(), k.k()); }, [&] { o.x.bounded_affine_preimage(Variable(v), l.x, u.x, Coefficient(d)); return 0; });
       else e.both(OPN(bounded_affine_image), opid, [&] { return OPF(bounded_affine_image)(o.h, v, l.h.k(), u.h.k(), k.k()); }, [&] { o.x.bounded_affine_image(Variable(v), l.x, u.x, Coefficient(d)); return 0; });
@@ -1312,7 +1338,7 @@ struct C20_CAT(Prog_, DOM_NAME, , ) {
     switch (k) {
     case 0: C20_Q(is_empty) break; case 1: C20_Q(is_universe) break; case 2: C20_Q(is_bounded) break; case 3: C20_Q(is_topologically_closed) break;
     case 4: C20_Q(is_discrete) break; case 5: C20_Q(OK) break;
-#if DOM_CIP
+#if DOM_CIP && !DOM_POLY && !DOM_PSET   // (branch-and-bound on polyhedra with huge coefficients may not terminate in reasonable time: base library)
     case 6: C20_Q(contains_integer_point) break;
 #endif
     case 7: { ppl_dimension_type d = 999; c.log << "space_dimension ?\n"; r = e.both(OPN(space_dimension), opid, [&] { return OPF(space_dimension)(o.h.k(), &d); }, [&] { return 0; }); c.check("same.out.space_dimension", d == o.x.space_dimension(), [&] { return "space_dimension " + std::to_string(d) + " vs C++ " + std::to_string(o.x.space_dimension()); }); r = (int) d; break; }
@@ -1323,7 +1349,8 @@ struct C20_CAT(Prog_, DOM_NAME, , ) {
       else r = e.both(OPN(bounds_from_below), opid, [&] { return OPF(bounds_from_below)(o.h.k(), l.h.k()); }, [&] { return o.x.bounds_from_below(l.x) ? 1 : 0; });
       l.h.free_(e); break; }
     case 12: { size_t tot = 0, ext = 0; c.log << "memory in bytes ?\n"; int r1 = e.ccall(OPN(total_memory_in_bytes), [&] { return OPF(total_memory_in_bytes)(o.h.k(), &tot); }); int r2 = e.ccall(OPN(external_memory_in_bytes), [&] { return OPF(external_memory_in_bytes)(o.h.k(), &ext); });
-      c.check("same.out.memory", r1 == 0 && r2 == 0 && tot == ext + sizeof(X) && ext == o.x.external_memory_in_bytes(), [&] { return "total " + std::to_string(tot) + " external " + std::to_string(ext) + "; C++ twin external " + std::to_string(o.x.external_memory_in_bytes()) + " sizeof " + std::to_string(sizeof(X)); }); break; }
+      // (capacities may differ between the handle and the twin: only the relation total = sizeof + external is compared)
+      c.check("same.out.memory", r1 == 0 && r2 == 0 && tot == ext + sizeof(X), [&] { return "total " + std::to_string(tot) + " external " + std::to_string(ext) + " sizeof " + std::to_string(sizeof(X)); }); break; }
     default: C20_Q(is_empty) break;
     }
     c.log << "      -> " << r << "\n";
@@ -1355,7 +1382,7 @@ struct C20_CAT(Prog_, DOM_NAME, , ) {
 #define C20_GET(cname, SYS, xcall, cmpf) { c.log << #cname "\n"; ppl_const_##SYS##_t cs = 0; SYS xs; char probe = 0; \
     int r = e.both(OPN(cname), opid, [&] { return OPF(cname)(o.h.k(), &cs); }, [&] { xs = o.x.xcall(); return 0; }); \
     if (r == 0) { if (in_dead_stack(cs, &probe)) { if (vf::kf("KF-C20-4")) { c.excluded("KF-C20-4"); break; } \
-        c.check("own.result_outlives_call", false, std::string(OPN(cname)) + " returned a handle to an object living in its own (already popped) stack frame: the C++ getter returns by value and the interface takes the address of the temporary"); break; } \
+        c.check("own.result_outlives_call.getter", false, std::string(OPN(cname)) + " returned a handle to an object living in its own (already popped) stack frame: the C++ getter returns by value and the interface takes the address of the temporary"); break; } \
       b.cmpf(cs, xs, #cname); } break; }
   void getters(Obj& o, Obj& q, size_t, const char*& opid) {
     opid = "getters"; (void) o; (void) q;
@@ -1378,7 +1405,7 @@ struct C20_CAT(Prog_, DOM_NAME, , ) {
       std::pair<X, Pointset_Powerset<NNC_Polyhedron> > xr(o.x, Pointset_Powerset<NNC_Polyhedron>(0, EMPTY));
       int r = e.both(OPN(linear_partition), opid, [&] { return OPF(linear_partition)(o.h.k(), q.h.k(), &inters, &rest); }, [&] { xr = linear_partition(o.x, q.x); return 0; });
       if (r == 0) { if (in_dead_stack(inters, &probe) || in_dead_stack(rest, &probe)) { if (vf::kf("KF-C20-5")) { c.excluded("KF-C20-5"); break; }
-          c.check("own.result_outlives_call", false, std::string(OPN(linear_partition)) + " returned handles to objects living in its own (already popped) stack frame"); break; }
+          c.check("own.result_outlives_call.linear_partition", false, std::string(OPN(linear_partition)) + " returned handles to objects living in its own (already popped) stack frame"); break; }
         std::string a = cdump(inters); c.check("same.out.linear_partition", a == xdump(xr.first), "linear_partition: intersection differs");
         b.same_dump("ppl_Pointset_Powerset_NNC_Polyhedron_ascii_dump", [&](FILE* f) { return ppl_Pointset_Powerset_NNC_Polyhedron_ascii_dump(rest, f); }, xr.second);
         int d1 = e.ccall(C20_STR(C20_CAT(ppl_delete_, DOM_OT, , )), [&] { return C20_CAT(ppl_delete_, DOM_OT, , )(inters); }); int d2 = e.ccall("ppl_delete_Pointset_Powerset_NNC_Polyhedron", [&] { return ppl_delete_Pointset_Powerset_NNC_Polyhedron(rest); }); c.check("own.delete", d1 == 0 && d2 == 0, "deleting the results of linear_partition failed"); }
@@ -1418,7 +1445,7 @@ struct C20_CAT(Prog_, DOM_NAME, , ) {
       else e.both(OPN(name), opid, [&] { return OPF(name)(w->h, q.h.k()); }, [&] { w->x.name(q.x); return 0; }); }
     DOM_WIDENINGS(C20_W)
 #undef C20_W
-#define C20_L(name) if (k == idx++) { PCs cs; std::string txt; b.gen_cs(cs, w->x.space_dimension(), 3, nnc, &txt); c.log << #name << (tokens ? "_with_tokens(" + std::to_string(ctok) + ")" : std::string()) << " up to " << txt << "\n"; \
+#define C20_L(name) if (k == idx++ && w->x.space_dimension() > 0) { PCs cs; std::string txt; b.no_false_cs = true; b.gen_cs(cs, w->x.space_dimension(), 3, nnc, &txt); b.no_false_cs = false; c.log << #name << (tokens ? "_with_tokens(" + std::to_string(ctok) + ")" : std::string()) << " up to " << txt << "\n"; \
       if (tokens) e.both(OPN(name##_with_tokens), opid, [&] { return OPF(name##_with_tokens)(w->h, q.h.k(), cs.h.k(), &ctok); }, [&] { w->x.name(q.x, cs.x, &xtok); return 0; }); \
       else e.both(OPN(name), opid, [&] { return OPF(name)(w->h, q.h.k(), cs.h.k()); }, [&] { w->x.name(q.x, cs.x); return 0; }); cs.h.free_(e); }
     DOM_LIMITED(C20_L)
@@ -1520,9 +1547,23 @@ struct C20_CAT(Prog_, DOM_NAME, , ) {
   // must remain deletable.  (The twin is not involved: after an interrupted mutator the content
   // is unspecified.)
   void inject_oom(Obj& o, size_t n, const char*& opid) {
-    opid = "oom"; std::unique_ptr<Obj> w(clone(o, false)); long k = t.range(1, 40); int which = (int) t.range(0, 5); std::string txt; int rc = 0; const char* nm = "";
+    opid = "oom";
+#if DOM_PSET
+    // powerset disjuncts are shared copy-on-write between a copy and its source: an interrupted
+    // operation on the scratch copy would change the lazy state of the pool object itself
+    c.log << "(no allocation-failure injection for powersets)\n"; (void) o; (void) n; return;
+#endif
+    std::unique_ptr<Obj> w(clone(o, false)); long k = t.range(1, 40); int which = (int) t.range(0, 5); std::string txt; int rc = 0; const char* nm = "";
     PCs cs; b.gen_cs(cs, n, 3, nnc, &txt); PLe l; LEv le = b.gen_lev(n, false); b.mk_le(l, le); HCoefficient k1; b.mk_coef(k1, 1);
-    HH extra; e.arm_next = k;
+    HH extra; int exp = 0; X cp(o.x);   // what the call returns when no allocation fails
+    switch (which) {
+    case 0: exp = e.expect([&] { cp.add_constraints(cs.x); return 0; }); break;
+    case 1: exp = e.expect([&] { return cp.is_empty() ? 1 : 0; }); break;
+    case 3: exp = e.expect([&] { cp.affine_image(Variable(0), l.x, Coefficient(1)); return 0; }); break;
+    case 4: exp = e.expect([&] { X tmp(cs.x); return 0; }); break;
+    default: break;
+    }
+    e.arm_next = k;
     switch (which) {
     case 0: nm = OPN(add_constraints); rc = e.ccall(nm, [&] { return OPF(add_constraints)(w->h, cs.h.k()); }); break;
     case 1: nm = OPN(is_empty); rc = e.ccall(nm, [&] { return OPF(is_empty)(w->h.k()); }); break;
@@ -1532,28 +1573,36 @@ struct C20_CAT(Prog_, DOM_NAME, , ) {
     default: { nm = "ppl_io_asprint_" C20_STR(DOM_OT); char* s = 0; rc = e.ccall(nm, [&] { return C20_CAT(ppl_io_asprint_, DOM_OT, , )(&s, w->h.k()); }); if (rc == 0 && s) std::free(s); break; }
     }
     bool fired = e.oom_fired; c.log << "allocation failure injected at allocation " << k << " of " << nm << " on a copy: " << (fired ? "fired" : "not reached") << ", returned " << rc << "\n";
-    if (fired) c.check("oom.code", rc >= 0 || rc == PPL_ERROR_OUT_OF_MEMORY, [&] { return std::string(nm) + " returned " + std::to_string(rc) + " (" + g_err.desc + ") when an allocation failed inside it"; });
+    // (the string output functions report a failed allocation inside the stream as PPL_STDIO_ERROR)
+    if (fired) c.check("oom.code", rc == PPL_ERROR_OUT_OF_MEMORY || rc == exp || (rc >= 0 && exp >= 0) || (which == 5 && rc == PPL_STDIO_ERROR), [&] { return std::string(nm) + " returned " + std::to_string(rc) + " (" + g_err.desc + ") when an allocation failed inside it; without the failure the C++ operation gives " + std::to_string(exp); });
+    else c.check("same.ret.oom_not_reached", rc == exp || which == 2 || which == 5 || (which == 1 && rc >= 0), [&] { return std::string(nm) + " returned " + std::to_string(rc) + ", C++ gives " + std::to_string(exp); });
     extra.free_(e); cs.h.free_(e); l.h.free_(e); k1.free_(e); w->h.free_(e);
   }
   // Deterministic timeout around one call on a scratch copy: normal completion or
   // PPL_TIMEOUT_EXCEPTION (handler invoked); afterwards the interface must work normally.
   void det_timeout(Obj& o, size_t n, const char*& opid) {
-    opid = "timeout"; std::unique_ptr<Obj> w(clone(o, false)); unsigned long wgt = (unsigned long) t.range(1, 30); unsigned scale = (unsigned) t.range(0, 2); std::string txt;
-    PCs cs; b.gen_cs(cs, n, 4, nnc, &txt); e.ccall(OPN(add_constraints), [&] { return OPF(add_constraints)(w->h, cs.h.k()); }); cs.h.free_(e);
-    c.log << "deterministic timeout " << wgt << "*2^" << scale << " around is_empty/minimisation of a copy with " << txt << "\n";
-    int r0 = e.both("ppl_set_deterministic_timeout", "set_det_timeout", [&] { return ppl_set_deterministic_timeout(wgt, scale); }, [&] { if (wgt == 0) throw std::invalid_argument("zero weight"); return 0; });
+    opid = "timeout";
+#if DOM_PSET
+    c.log << "(no timeout injection for powersets)\n"; (void) o; (void) n; return;
+#endif
+     std::unique_ptr<Obj> w(clone(o, false)), w2(clone(o, false)); unsigned long wgt = (unsigned long) t.range(1, 30); unsigned scale = (unsigned) t.range(0, 2); std::string txt;
+    PCs cs; b.gen_cs(cs, n, 4, nnc, &txt);
+    int a1 = e.both(OPN(add_constraints), "add_constraints", [&] { return OPF(add_constraints)(w->h, cs.h.k()); }, [&] { w->x.add_constraints(cs.x); return 0; });
+    e.both(OPN(add_constraints), "add_constraints", [&] { return OPF(add_constraints)(w2->h, cs.h.k()); }, [&] { w2->x.add_constraints(cs.x); return 0; }); cs.h.free_(e);
+    c.log << "deterministic timeout " << wgt << "*2^" << scale << " around is_bounded of a copy with " << txt << "\n";
+    int r0 = e.ccall("ppl_set_deterministic_timeout", [&] { return ppl_set_deterministic_timeout(wgt, scale); }); c.check("same.ret.set_det_timeout", r0 == 0, "ppl_set_deterministic_timeout failed");
     int rc = e.ccall(OPN(is_bounded), [&] { return OPF(is_bounded)(w->h.k()); });
-    c.check("timeout.code", rc >= 0 || rc == PPL_TIMEOUT_EXCEPTION || (r0 < 0 && rc >= 0) || (n == 0 && rc >= -5), [&] { return std::string(OPN(is_bounded)) + " under a deterministic timeout returned " + std::to_string(rc) + " (" + g_err.desc + ")"; });
-    if (rc == PPL_TIMEOUT_EXCEPTION) {   // the timeout expired: it is documented as consumed (reset needed only after normal completion)
+    int x1 = e.expect([&] { return w->x.is_bounded() ? 1 : 0; });
+    c.check("timeout.code", rc == x1 || rc == PPL_TIMEOUT_EXCEPTION, [&] { return std::string(OPN(is_bounded)) + " under a deterministic timeout returned " + std::to_string(rc) + " (" + g_err.desc + "), C++ without timeout gives " + std::to_string(x1); });
+    if (rc == PPL_TIMEOUT_EXCEPTION && a1 == 0) {   // expired: the interface resets an expired timeout itself (CATCH_ALL); the same query on an identical copy must now complete
       c.tag("timeout expired");
-      std::unique_ptr<Obj> v(clone(o, false)); int r2 = e.ccall(OPN(is_bounded), [&] { return OPF(is_bounded)(v->h.k()); }); int x2 = e.expect([&] { X cp(o.x); return cp.is_bounded() ? 1 : 0; });
-      if (!vf::kf("KF-C20-1")) c.check("timeout.state_after_expiry", r2 == x2, [&] { return "after a deterministic timeout expired (before any reset) " + std::string(OPN(is_bounded)) + " on a fresh copy returned " + std::to_string(r2) + ", C++ gives " + std::to_string(x2); });
+      int r2 = e.ccall(OPN(is_bounded), [&] { return OPF(is_bounded)(w2->h.k()); }); int x2 = e.expect([&] { return w2->x.is_bounded() ? 1 : 0; });
+      if (!vf::kf("KF-C20-1")) c.check("timeout.state_after_expiry", r2 == x2, [&] { return "after a deterministic timeout expired (and before any reset) " + std::string(OPN(is_bounded)) + " on an identical copy returned " + std::to_string(r2) + " (" + g_err.desc + "), C++ gives " + std::to_string(x2); });
       else if (r2 != x2) c.excluded("KF-C20-1");
-      v->h.free_(e);
     }
     int r1 = e.ccall("ppl_reset_deterministic_timeout", [&] { return ppl_reset_deterministic_timeout(); }); c.check("timeout.reset", r1 == 0, "ppl_reset_deterministic_timeout failed");
     { std::unique_ptr<Obj> v(clone(o, false)); e.both(OPN(is_bounded), "timeout_after_reset", [&] { return OPF(is_bounded)(v->h.k()); }, [&] { X cp(o.x); return cp.is_bounded() ? 1 : 0; }); v->h.free_(e); }
-    w->h.free_(e);
+    w->h.free_(e); w2->h.free_(e);
   }
   void wrap(Obj& o, size_t n, const char*& opid) {
     opid = "wrap"; (void) o; (void) n;
